@@ -176,6 +176,7 @@ def run_ref(plan, limit=0, cap=0, env=None, model=None, globals_=None):
         out.error = ('rt', str(exc))
     except RefParserError as exc:
         out.error = ('parse', exc.location)
+        out.extra['parse_in_call'] = exc.in_call
     except RefCap:
         out.error = ('cap',)
     except HostFailure as hf:
